@@ -74,9 +74,17 @@ Proof.
   - f_equal. rewrite IH. f_equal. f_equal. lia.
 Qed.
 
+Lemma chain_last_end : forall ms a b, chain_from a (spans ms) b -> last_end_m ms a = b.
+Proof.
+  induction ms as [|m r IH]; intros a b C; simpl in C; [exact C|].
+  destruct C as (_ & _ & C). specialize (IH _ _ C).
+  unfold last_end_m in *. destruct r as [|m' r']; [exact IH|].
+  rewrite last_cons. exact IH.
+Qed.
+
 Lemma fill_all_spec : forall ss ex last cnt ms A B,
   ex_ok_all ex ss -> chain_from A (map st_span ss) B ->
-  fill_all ex last ss cnt = Some ms ->
+  fill_all ex last ss cnt A = Some ms ->
   chain_from A (spans ms) B
   /\ map m_num ms = zrange cnt (List.length ms)
   /\ (forall m, In m ms -> m_old m = true -> In (span m) ex)
@@ -85,12 +93,13 @@ Proof.
   induction ss as [|[[a b] bl] ss IH]; intros ex last cnt ms A B Hex C H.
   - simpl in H. injection H as <-. simpl in *. repeat split; auto; intros m [].
   - cbn [fill_all] in H.
+    simpl in C. destruct C as (Ea & Lab & C). subst A. rewrite Z.max_id in H.
     destruct (fill (S (Z.to_nat (b - a))) ex bl last b a cnt) as [[ms1 c1]|] eqn:EF; simpl in H; [|discriminate].
-    destruct (fill_all ex last ss c1) as [ms2|] eqn:EA; simpl in H; [|discriminate].
-    injection H as <-.
-    simpl in C. destruct C as (Ea & Lab & C). subst A.
     assert (Hex1 : ex_ok ex a b) by (apply (Hex (a, b, bl)); left; reflexivity).
     destruct (fill_spec _ _ _ _ _ a _ _ _ _ Hex1 (Z.le_refl a) ltac:(lia) EF) as (C1 & N1 & Cn & O1 & Nw1 & R1).
+    rewrite (chain_last_end _ _ _ C1) in H.
+    destruct (fill_all ex last ss c1 b) as [ms2|] eqn:EA; simpl in H; [|discriminate].
+    injection H as <-.
     assert (Hex2 : ex_ok_all ex ss) by (intros s Hs; apply Hex; right; assumption).
     destruct (IH ex last c1 ms2 b B Hex2 C EA) as (C2 & N2 & O2 & Nw2).
     refine (conj _ (conj _ (conj _ _))).
@@ -194,7 +203,7 @@ Qed.
 (* ---- main lemmas *)
 Lemma add_measures_unfold div tsigs first last ex :
   tsigs <> [] -> first < last ->
-  add_measures div tsigs first last ex = fill_all ex last (stretches div tsigs first last) 1.
+  add_measures div tsigs first last ex = fill_all ex last (stretches div tsigs first last) 1 first.
 Proof.
   intros N L. unfold add_measures. destruct tsigs; [congruence|].
   destruct (first =? last) eqn:E; [lia|reflexivity].
@@ -289,16 +298,18 @@ Proof.
 Qed.
 
 Lemma fill_all_total : forall ss ex last cnt A B,
-  ex_ok_all ex ss -> chain_from A (map st_span ss) B -> fill_all ex last ss cnt <> None.
+  ex_ok_all ex ss -> chain_from A (map st_span ss) B -> fill_all ex last ss cnt A <> None.
 Proof.
   induction ss as [|[[a b] bl] ss IH]; intros ex last cnt A B Hex C; [discriminate|].
-  cbn [fill_all]. simpl in C. destruct C as (Ea & Lab & C).
+  cbn [fill_all]. simpl in C. destruct C as (Ea & Lab & C). subst A. rewrite Z.max_id.
   assert (Hex1 : ex_ok ex a b) by (apply (Hex (a, b, bl)); left; reflexivity).
   pose proof (fill_total (S (Z.to_nat (b - a))) ex bl last b a a cnt Hex1 (Z.le_refl a) ltac:(lia) ltac:(lia)) as N.
-  destruct (fill (S (Z.to_nat (b - a))) ex bl last b a cnt) as [[ms1 c1]|]; [|congruence]. simpl.
+  destruct (fill (S (Z.to_nat (b - a))) ex bl last b a cnt) as [[ms1 c1]|] eqn:EF; [|congruence]. simpl.
+  destruct (fill_spec _ _ _ _ _ a _ _ _ _ Hex1 (Z.le_refl a) ltac:(lia) EF) as (C1 & _).
+  rewrite (chain_last_end _ _ _ C1).
   assert (Hex2 : ex_ok_all ex ss) by (intros s Hs; apply Hex; right; assumption).
   pose proof (IH ex last c1 b B Hex2 C) as N2.
-  destruct (fill_all ex last ss c1); [discriminate|congruence].
+  destruct (fill_all ex last ss c1 b); [discriminate|congruence].
 Qed.
 
 Lemma add_measures_total_lemma div tsigs first last ex :
@@ -308,7 +319,7 @@ Proof.
   rewrite add_measures_unfold by assumption.
   destruct (stretches_chain div tsigs first last T) as [C _].
   pose proof (fill_all_total _ ex last 1 _ _ X C) as H.
-  destruct (fill_all ex last (stretches div tsigs first last) 1) as [ms|]; [eauto|congruence].
+  destruct (fill_all ex last (stretches div tsigs first last) 1 first) as [ms|]; [eauto|congruence].
 Qed.
 
 (* ---- a new measure contains the start of no existing measure *)
@@ -371,16 +382,18 @@ Qed.
 
 Lemma fill_all_new_free : forall ss ex last cnt ms A B,
   ex_sorted ex -> ex_ok_all ex ss -> chain_from A (map st_span ss) B ->
-  fill_all ex last ss cnt = Some ms -> forall m, In m ms -> starts_free ex m.
+  fill_all ex last ss cnt A = Some ms -> forall m, In m ms -> starts_free ex m.
 Proof.
   induction ss as [|[[a b] bl] ss IH]; intros ex last cnt ms A B Hso Hex C H.
   - simpl in H. injection H as <-. intros m [].
   - cbn [fill_all] in H.
+    simpl in C. destruct C as (Ea & Lab & C). subst A. rewrite Z.max_id in H.
     destruct (fill (S (Z.to_nat (b - a))) ex bl last b a cnt) as [[ms1 c1]|] eqn:EF; simpl in H; [|discriminate].
-    destruct (fill_all ex last ss c1) as [ms2|] eqn:EA; simpl in H; [|discriminate].
-    injection H as <-.
-    simpl in C. destruct C as (Ea & Lab & C). subst A.
     assert (Hex1 : ex_ok ex a b) by (apply (Hex (a, b, bl)); left; reflexivity).
+    destruct (fill_spec _ _ _ _ _ a _ _ _ _ Hex1 (Z.le_refl a) ltac:(lia) EF) as (C1 & _).
+    rewrite (chain_last_end _ _ _ C1) in H.
+    destruct (fill_all ex last ss c1 b) as [ms2|] eqn:EA; simpl in H; [|discriminate].
+    injection H as <-.
     assert (Hex2 : ex_ok_all ex ss) by (intros s Hs; apply Hex; right; assumption).
     intros m Hm. apply in_app_or in Hm as [Hm|Hm].
     + exact (fill_new_free _ _ _ _ _ a _ _ _ _ Hso Hex1 (Z.le_refl a) ltac:(lia) EF m Hm).
